@@ -9,7 +9,7 @@ from typing import Dict, List, Optional, Set, Tuple
 from ..core import astutil as A
 from ..core.index import AnalysisError, FuncInfo
 from ..selftest import M
-from .common import entails, BASE_OUTLINE, OTF_OUTLINE, TTF_OUTLINE, T, attr_stores, calls_named, conds, every_origin, facts, may_conds, need, subscript_stores, where
+from .common import ext_name, branch_values, entails, BASE_OUTLINE, OTF_OUTLINE, TTF_OUTLINE, T, attr_stores, calls_named, conds, every_origin, facts, may_conds, need, subscript_stores, where
 from .rounding import is_otround
 
 
@@ -81,15 +81,30 @@ def r042(prog, chk):
         oka, _ = every_origin(prog, f, a_, lambda x, ff: is_otround(prog, ff, x) and T(x.args[0]) == f"{g}.{adv}", allow_const=False)
         chk.ob("R04.2", f"{f.short}|advance = otRound(glyph.{adv})", oka, where(f, st[0][0]), detail=f"otRound({g}.{adv})", message=f"{f.short}: the stored advance is not the rounded {adv} of the same glyph")
         # bearing from that glyph's own box
-        bnd = [s for s in lp[0].body if isinstance(s, ast.Assign) and T(s.value) == f"self.glyphBoundingBoxes[{gname}]"]
-        okb = len(bnd) == 1
-        if okb:
-            bn = bnd[0].targets[0].id
-            sidev = [s for s in lp[0].body if isinstance(s, ast.Assign) and isinstance(s.value, ast.IfExp) and T(s.value.body) == f"{bn}.{side}" and T(s.value.test) == bn and A.is_const(s.value.orelse, 0)]
-            okb = len(sidev) == 1
-            if okb:
-                sn = sidev[0].targets[0].id
-                okb = T(b_) == sn if adv == "width" else (isinstance(b_, ast.BinOp) and isinstance(b_.op, ast.Sub) and T(b_.right) == sn)
+        be = b_ if adv == "width" else (b_.right if isinstance(b_, ast.BinOp) and isinstance(b_.op, ast.Sub) else None)
+        bv = branch_values(prog, f, be) if be is not None else []
+        okb = len(bv) == 2
+
+        def own_box(nm):
+            ds = prog.reaching(f, nm.id, nm) if isinstance(nm, ast.Name) else []
+            return len(ds) == 1 and ds[0].value is not None and T(ds[0].value) == f"self.glyphBoundingBoxes[{gname}]"
+        kinds = set()
+        box_names = set()
+        for v, fs in bv:
+            if isinstance(v, ast.Attribute) and v.attr == side and own_box(v.value):
+                bn = v.value.id
+                box_names.add(bn)
+                okb = okb and any((o == "truthy" and l == bn) or (o == "isnot" and l == bn and r == "None") for o, l, r in fs)
+                kinds.add("box")
+        for v, fs in bv:
+            if isinstance(v, ast.Attribute):
+                continue
+            if A.is_const(v, 0):
+                okb = okb and any((o == "falsy" and l in box_names) or (o == "is" and l in box_names and r == "None") for o, l, r in fs)
+                kinds.add("zero")
+            else:
+                okb = False
+        okb = okb and kinds == {"box", "zero"}
         chk.ob("R04.2", f"{f.short}|bearing from the same glyph's box ({side}), 0 when it has none", okb, where(f, st[0][0]), detail=T(b_),
                message=f"{f.short}: the side bearing is not derived from the {side} of the glyph's own bounding box (0 for empty glyphs)")
     chk.minimum("R04.2", 6)
@@ -261,7 +276,8 @@ def r046(prog, chk):
         chk.ob("R04.6", f"{m.short}|maxp.numGlyphs = len(glyph order)", ok, where(m), detail=T(st[0][2]) if st else "", message=f"{m.short}: maxp.numGlyphs is not the number of glyphs in the glyph order")
     po = ix.get_method(TTF_OUTLINE, "setupTable_post", own=True)
     st = [(s, t, v) for s, t, v in attr_stores(po, "extraNames")]
-    ok = len(st) == 1 and isinstance(st[0][2], ast.ListComp) and T(st[0][2].generators[0].iter) == "self.glyphOrder" and T(st[0][2].generators[0].ifs[0]).endswith("not in standardGlyphOrder") \
+    ok = len(st) == 1 and isinstance(st[0][2], ast.ListComp) and T(st[0][2].generators[0].iter) == "self.glyphOrder" and len(st[0][2].generators[0].ifs) == 1 and isinstance(st[0][2].generators[0].ifs[0], ast.Compare) and isinstance(st[0][2].generators[0].ifs[0].ops[0], ast.NotIn) \
+        and T(st[0][2].generators[0].ifs[0].left) == T(st[0][2].elt) and ext_name(prog, po, st[0][2].generators[0].ifs[0].comparators[0]) == "fontTools.ttLib.standardGlyphOrder.standardGlyphOrder" \
         and any(T(v) == "self.glyphOrder" for s, t, v in attr_stores(po, "glyphOrder")) and any(A.is_const(v, 2.0) for s, t, v in attr_stores(po, "formatType"))
     chk.ob("R04.6", f"{po.short}|post 2.0 names = glyph order without the standard names, post.glyphOrder = the compiler's order", ok, where(po), detail=T(st[0][2], 80) if st else "", message=f"{po.short}: the post table's names do not follow the compiler's glyph order")
     vo = ix.get_method(BASE_OUTLINE, "setupTable_VORG", own=True)
